@@ -211,6 +211,98 @@ def part_close(ctx, shard):
                                 )
 
 
+ALL_CLOSE = {
+    "allclose_units": lambda a, d, rt, at: allclose_units(a, d, rt, at),
+    "allclose_units_kw": lambda a, d, rt, at: allclose_units(a, d, rtol=rt, atol=at),
+    "assert_allclose_units": lambda a, d, rt, at: assert_allclose_units(a, d, rt, at),
+    "np.allclose": lambda a, d, rt, at: np.allclose(a, d, rt, at),
+    "np.allclose_kw": lambda a, d, rt, at: np.allclose(a, d, rtol=rt, atol=at),
+    "np.isclose": lambda a, d, rt, at: np.isclose(a, d, rt, at),
+    "np.isclose_kw": lambda a, d, rt, at: np.isclose(a, d, atol=at, rtol=rt),
+}
+# kelvin per unit and the zero point of each temperature scale (reading 0 in kelvin)
+TSCALE = {"K": (1.0, 0.0), "mK": (1e-3, 0.0), "R": (5.0 / 9.0, 0.0), "degC": (1.0, 273.15), "degF": (5.0 / 9.0, 459.67 * 5.0 / 9.0), "mdegC": (1e-3, 273.15)}
+TOLU = {"K": 1.0, "mK": 1e-3, "R": 5.0 / 9.0, "delta_degC": 1.0, "delta_degF": 5.0 / 9.0}
+
+
+def part_close_tolerances(ctx, shard):
+    """tolerances given as quantities in their own units, on every helper including np.allclose / np.isclose:
+    (a) temperatures on offset scales - a tolerance is a difference, its zero point plays no part;
+    (b) lengths with atol in another unit / of another dimension, rtol as a percent quantity;
+    (c) a genuinely dimensionless quantity as an operand is a quantity (never read in the other operand's unit)"""
+    world.reset_world()
+    for kind in shard:
+        if kind == "temperature":
+            TK = np.array([283.15, 300.0, 350.0])
+            for ua, ud, dK, (tu, tk), big in itertools.product(TSCALE, TSCALE, (0.0, 0.5, -0.5), TOLU.items(), (True, False)):
+                if ("deg" in ua) and ("deg" in ud) and ua.lstrip("m") != ud.lstrip("m"):
+                    continue  # two different offset scales: unyt refuses to mix them
+                a = unyt_array((TK - TSCALE[ua][1]) / TSCALE[ua][0], ua)
+                d = unyt_array((TK + dK - TSCALE[ud][1]) / TSCALE[ud][0], ud)
+                atol_K = 2.0 if big else 0.05
+                at = unyt_quantity(atol_K / tk, tu)
+                want = "accept" if abs(dK) <= atol_K else "refuse"
+                for fname, f in ALL_CLOSE.items():
+                    ctx.count("evaluations")
+                    got = verdict_of(fname, call_bool(lambda: f(a, d, 0.0, at)))
+                    case = {"part": "close-tolerances", "kind": kind, "ua": ua, "ud": ud, "dK": dK, "atol": [atol_K / tk, tu], "func": fname}
+                    ctx.outcome(("close-T", fname, ua, ud, dK, tu, big, got))
+                    ctx.decided(("close-T", fname, ua, ud, dK, tu, big))
+                    g = got.split(":")[0]
+                    g = "refuse" if g.startswith("refuse") else g
+                    if g != want:
+                        scales = "same-scale" if ua == ud else "offset-with-absolute" if ("deg" in ua) != ("deg" in ud) else "two-scales"
+                        ctx.violation(f"C19|close-tolerance|kind=temperature|func={fname.replace('_kw', '')}|scales={scales}|mode={got.split(':')[0]}-instead-of-{want}", case, want, got)
+        elif kind == "length":
+            L = np.array([1.0, 2.0, 3.0])
+            for ua, ud, rel, (aname, aval, a_si), rtname in itertools.product(("m", "cm", "km"), ("m", "cm", "mile"), (0.0, 1e-3, 0.2),
+                    (("cm-small", lambda: unyt_quantity(1.0, "cm"), 0.01), ("km-large", lambda: unyt_quantity(0.002, "km"), 2.0), ("m-array", lambda: unyt_array([0.5, 0.5, 0.5], "m"), 0.5),
+                     ("time", lambda: unyt_quantity(1e9, "s"), None), ("dimensionless-q", lambda: unyt_quantity(1e9, "dimensionless"), None)), ("zero", "percent-q")):
+                a = unyt_array(L / SI[ua], ua)
+                d = unyt_array(L * (1.0 + rel) / SI[ud], ud)
+                rt, rt_si = (0.0, 0.0) if rtname == "zero" else (unyt_quantity(1.0, "percent"), 0.01)
+                if a_si is None:
+                    want = "refuse"
+                else:
+                    diff, tol = np.abs(L * rel), a_si + rt_si * np.abs(L * (1.0 + rel))
+                    if np.all(diff <= tol * (1 - 1e-6)):
+                        want = "accept"
+                    elif np.any(diff > tol * (1 + 1e-6)):
+                        want = "refuse"
+                    else:
+                        continue
+                for fname, f in ALL_CLOSE.items():
+                    ctx.count("evaluations")
+                    got = verdict_of(fname, call_bool(lambda: f(a, d, rt, aval())))
+                    case = {"part": "close-tolerances", "kind": kind, "ua": ua, "ud": ud, "rel": rel, "atol": aname, "rtol": rtname, "func": fname}
+                    ctx.outcome(("close-L", fname, ua, ud, rel, aname, rtname, got))
+                    ctx.decided(("close-L", fname, ua, ud, rel, aname, rtname))
+                    g = "refuse" if got.startswith("refuse") else got
+                    if g != want:
+                        ctx.violation(f"C19|close-tolerance|kind=length|func={fname.replace('_kw', '')}|atol={aname}|rtol={rtname}|mode={got.split(':')[0]}-instead-of-{want}", case, want, got)
+        else:
+            V = np.array([1.0, 2.0, 3.0])
+            ops = {"dimensionless": lambda v: unyt_array(v.copy(), "dimensionless"), "m/m": lambda v: unyt_array(v.copy(), "m") / unyt_quantity(1.0, "m"), "percent": lambda v: unyt_array(v * 100.0, "percent"),
+                   "m": lambda v: unyt_array(v.copy(), "m"), "s": lambda v: unyt_array(v.copy(), "s"), "bare": lambda v: v.copy()}
+            for (na, fa), (nd, fd), rel in itertools.product(ops.items(), ops.items(), (0.0, 0.5)):
+                if "dimensionless" not in (na, nd) and "m/m" not in (na, nd):
+                    continue
+                if "bare" in (na, nd):
+                    continue  # a bare operand against a dimensionless quantity: both readings coincide
+                a, d = fa(V), fd(V * (1.0 + rel))
+                pure = {"dimensionless", "m/m", "percent"}
+                want = "refuse" if (na in pure) != (nd in pure) else ("accept" if rel == 0.0 else "refuse")
+                for fname, f in ALL_CLOSE.items():
+                    ctx.count("evaluations")
+                    got = verdict_of(fname, call_bool(lambda: f(a, d, 1e-9, 0.0)))
+                    case = {"part": "close-tolerances", "kind": kind, "a": na, "d": nd, "rel": rel, "func": fname}
+                    ctx.outcome(("close-1", fname, na, nd, rel, got))
+                    ctx.decided(("close-1", fname, na, nd, rel))
+                    g = "refuse" if got.startswith("refuse") else got
+                    if g != want:
+                        ctx.violation(f"C19|close-tolerance|kind=dimensionless-operand|func={fname.replace('_kw', '')}|pair={na}+{nd}|mode={got.split(':')[0]}-instead-of-{want}", case, want, got)
+
+
 def part_registries(ctx, shard):
     """the same unit NAME with different sizes in two registries: the verdict follows the sizes, not the spelling"""
     world.reset_world()
@@ -573,6 +665,7 @@ def run(ctx):
     harness.pmap(ctx, part_close, [[(a, d)] for a in forms for d in forms])
     harness.pmap(ctx, part_equal, [[s] for s in [(), (3,), (2, 2), (1,)]])
     harness.pmap(ctx, part_registries, [["quantity"], ["array"]])
+    harness.pmap(ctx, part_close_tolerances, [["temperature"], ["length"], ["dimensionless-operand"]])
     dims = all_dimensions()
     harness.pmap(ctx, part_decorate, [dims[i::16] for i in range(16)])
     return {
@@ -602,6 +695,8 @@ def replay(case):
         part_equal(ctx, [tuple(case["shape"])])
     elif p == "registries":
         part_registries(ctx, [case["form"]])
+    elif p == "close-tolerances":
+        part_close_tolerances(ctx, [case["kind"]])
     else:
         part_decorate(ctx, [x for x in all_dimensions() if x[0] == case["dim"]])
     return list(ctx.violations.items())
